@@ -402,14 +402,18 @@ func (r *c31Rig) deliver(ifc *c31Iface, src ethernet.MACAddr, raw []byte) error 
 // advance moves mock time to `to`, firing every adjacency-checker ticker in
 // chronological order (ties in creation order). After each fired instant
 // `each` is called at a quiescent point.
-func (r *c31Rig) advance(to time.Time, each func(now time.Time)) {
+//
+// With inclusive == false the ticks that fall exactly on `to` stay pending and
+// are delivered by the next advance, i.e. *after* whatever the harness does at
+// `to` (a hello arriving at the very instant of a tick is processed first).
+func (r *c31Rig) advance(to time.Time, inclusive bool, each func(now time.Time)) {
 	for {
 		var next *c31Ticker
 		for _, t := range r.adj {
 			if t == nil || t.dead {
 				continue
 			}
-			if t.next.After(to) {
+			if t.next.After(to) || (!inclusive && t.next.Equal(to)) {
 				continue
 			}
 			if next == nil || t.next.Before(next.next) || (t.next.Equal(next.next) && t.id < next.id) {
